@@ -93,12 +93,13 @@ class Prim:
 
 
 class Target:
-    def __init__(self, module, name, params, ret, family, lean=None, drop=(), consts=None, only=None, fuels=()):
+    def __init__(self, module, name, params, ret, family, lean=None, drop=(), consts=None, only=None, fuels=(), locals=None):
         self.module, self.name, self.params, self.ret, self.family = module, name, list(params), ret, family
         self.lean = lean or (module[:-3].replace('/', '_') + '_' + name)
         self.drop = set(drop)                   # parameters that are not value-level arguments (PLUMBING parameters are added)
         self.consts = dict(consts or {})        # module-level names readable in the body: name -> (lean text, sort)
         self.only = only
+        self.locals = dict(locals or {})        # reviewed signatures of nested `def`s: name -> ([parameter sorts], result sort)
         self.fuels = list(fuels)                # reviewed iteration bounds of the `while` loops, in source order (Python expressions)
 
     @property
@@ -312,6 +313,16 @@ class Tr:
                 a, s = self._E(node.left, env, want)
                 if s in ('K', 'int', 'nat'):
                     return f'({a} * {a})', s
+            if 'np.power' in self.fam.prims:
+                # `x ** e` through the reviewed power primitive: elementwise on an array seen pointwise; an int exponent is embedded
+                a, sa = self._E(node.left, env)
+                e, se = self._E(node.right, env)
+                if se in ('natlit', 'nat', 'int', 'K') and sa in ('K', 'fld'):
+                    e = self.coerce(e, se, 'K', node)
+                    pw = self.fam.prims['np.power'].field
+                    if sa == 'K':
+                        return f'(P.{pw} {a} {e})', 'K'
+                    return f'(fun p => P.{pw} ({a} p) {e})', 'fld'
             raise self.err(node, 'power other than **2')
         if op in (ast.BitOr, ast.BitAnd):
             # `|` / `&` of Boolean masks (elementwise) or of two bools
@@ -475,6 +486,24 @@ class Tr:
                 and node.args[0].elts and all(isinstance(r, ast.List) for r in node.args[0].elts):
             rows = ['[' + ', '.join(self.E(e, env, 'K')[0] for e in r.elts) + ']' for r in node.args[0].elts]
             return '[' + ', '.join(rows) + ']', 'mat'
+        # np.array([a, b, c]) of scalars: the vector
+        if d == 'np.array' and len(node.args) == 1 and not node.keywords and isinstance(node.args[0], ast.List) \
+                and node.args[0].elts and not any(isinstance(r, (ast.List, ast.Tuple)) for r in node.args[0].elts) \
+                and 'K' in self.fam.tparams:
+            return '[' + ', '.join(self.E(e, env, 'K')[0] for e in node.args[0].elts) + ']', 'vec'
+        # np.dstack([a, b, c]) of three planes: a reviewed primitive
+        if d == 'np.dstack' and len(node.args) == 1 and not node.keywords and isinstance(node.args[0], ast.List) \
+                and len(node.args[0].elts) == 3 and 'np.dstack3' in self.fam.prims:
+            p = self.fam.prims['np.dstack3']
+            parts = [self.E(e, env, so)[0] for e, so in zip(node.args[0].elts, p.args)]
+            return '(' + ' '.join([f'P.{p.field}'] + parts) + ')', p.ret
+        # np.maximum(array, scalar) pointwise: the larger of the two (the scalar when the element is strictly smaller)
+        if d == 'np.maximum' and len(node.args) == 2 and not [k for k in node.keywords if k.arg != 'out'] and 'K' in self.fam.tparams:
+            a, sa = self._E(node.args[0], env)
+            b, sb = self._E(node.args[1], env)
+            if sa == 'fld' and sb in ('K', 'nat', 'int', 'natlit'):
+                b = self.coerce(b, sb, 'K', node)
+                return f'(fun p => if ({a} p) < {b} then {b} else ({a} p))', 'fld'
         # np.minimum(array, scalar) pointwise: the smaller of the two (the scalar when it is strictly smaller)
         if d == 'np.minimum' and len(node.args) == 2 and not [k for k in node.keywords if k.arg != 'out'] and 'K' in self.fam.tparams:
             a, sa = self._E(node.args[0], env)
@@ -503,7 +532,25 @@ class Tr:
             return self._E(node.func.value, env, want)
         d = dotted(node.func)
         recv = None
-        if d is None or d not in self.fam.prims:
+        if d in env and env[d].startswith('fn:'):
+            # call of a nested `def` (reviewed signature in Target.locals)
+            psorts, rsort = self.t.locals[d]
+            if node.keywords or len(node.args) != len(psorts):
+                raise self.err(node, f'call of the local function {d} does not fit its reviewed signature')
+            parts = [self.E(a, env, so)[0] for a, so in zip(node.args, psorts)]
+            return '(' + ' '.join([lname(d)] + parts) + ')', rsort
+        if (d is None or d not in self.fam.prims) and isinstance(node.func, ast.Attribute) \
+                and ('.' + node.func.attr + '()') not in self.fam.prims and not (d and d.split('.')[0] not in env):
+            # the same method of receivers of different sorts: `.m():<sort>`
+            try:
+                _, rs = self._E(node.func.value, env)
+            except TranslationError:
+                rs = None
+            if f'.{node.func.attr}():{rs}' in self.fam.prims:
+                d, recv = f'.{node.func.attr}():{rs}', node.func.value
+        if recv is not None:
+            pass
+        elif d is None or d not in self.fam.prims:
             # method call on a value: `.m` primitives take the receiver first
             chain = d.split('.', 1) if d else None
             if isinstance(node.func, ast.Attribute) and ('.' + node.func.attr + '()') in self.fam.prims:
@@ -631,7 +678,7 @@ class Tr:
                 raise self.err(s, 'bare return')
             if getattr(self, '_inloop', 0):
                 raise self.err(s, '`return` inside a loop')
-            txt, _ = self.E(s.value, env, self.t.ret)
+            txt, _ = self.E(s.value, env, getattr(self, '_ret', None) or self.t.ret)
             return [pad + (f'some {txt}' if self.raises else txt)]
         if isinstance(s, ast.Raise):
             if getattr(self, '_inloop', 0):
@@ -641,6 +688,52 @@ class Tr:
             if not getattr(self, '_inloop', 0):
                 raise self.err(s, 'break/continue outside a loop')
             return self._loop_exit(env, ind, isinstance(s, ast.Break))
+        if isinstance(s, ast.FunctionDef):
+            # nested `def` with a reviewed signature: a local function `let f := fun (x : T) => body`
+            sig = self.t.locals.get(s.name)
+            a = s.args
+            if sig is None or a.vararg or a.kwarg or a.kwonlyargs or a.defaults or len(a.args) != len(sig[0]) or s.decorator_list:
+                raise self.err(s, f'nested def {s.name} without a matching reviewed signature (Target.locals)')
+            if any(isinstance(n, (ast.Raise, ast.FunctionDef)) for n in ast.walk(s) if n is not s) or getattr(self, '_inloop', 0):
+                raise self.err(s, 'nested def with raise / def inside, or inside a loop')
+            env_in = dict(env)
+            for x, so in zip(a.args, sig[0]):
+                env_in[x.arg] = so
+            saved = (getattr(self, '_ret', None), self.raises)
+            self._ret, self.raises = sig[1], False
+            try:
+                body = self.S(list(s.body), env_in, None, ind + 2)
+            finally:
+                self._ret, self.raises = saved
+            bind = ' '.join(f'({lname(x.arg)} : {LEAN_TYPE[so]})' for x, so in zip(a.args, sig[0]))
+            env2 = dict(env)
+            env2[s.name] = 'fn:' + s.name
+            return [pad + f'let {lname(s.name)} := (fun {bind} =>'] + body + [pad + '  )'] + self.S(rest, env2, k, ind)
+        if isinstance(s, ast.Assign) and len(s.targets) == 1 and isinstance(s.targets[0], ast.Tuple) \
+                and all(isinstance(e, ast.Name) for e in s.targets[0].elts):
+            names = [e.id for e in s.targets[0].elts]
+            val = s.value
+            if isinstance(val, ast.Tuple) and len(val.elts) == len(names) \
+                    and not ({n.id for n in ast.walk(val) if isinstance(n, ast.Name)} & set(names)):
+                # `a, b, c = e1, e2, e3` (no target read on the right): three assignments
+                asg = []
+                for n, e in zip(names, val.elts):
+                    x = ast.Assign(targets=[ast.Name(id=n, ctx=ast.Store())], value=e)
+                    ast.copy_location(x, s); ast.fix_missing_locations(x)
+                    asg.append(x)
+                return self.S(asg + list(rest), env, k, ind)
+            if isinstance(val, ast.Call) and isinstance(val.func, ast.Attribute) and val.func.attr == 'transpose' \
+                    and len(val.args) == 1 and not val.keywords and ast.unparse(val.args[0]).replace(' ', '') == '(2,0,1)' \
+                    and len(names) == 3 and 'unpack:transpose201' in self.fam.prims:
+                # `x, y, z = a.transpose((2, 0, 1))`: the three channel planes of an (h, w, 3) array
+                p = self.fam.prims['unpack:transpose201']
+                a_, _ = self.E(val.func.value, env, p.args[0])
+                env2, lines = dict(env), []
+                for i, n in enumerate(names):
+                    lines.append(pad + f'let {lname(n)} := P.{p.field} {a_} {i}')
+                    env2[n] = p.ret
+                return lines + self.S(rest, env2, k, ind)
+            raise self.err(s, 'tuple assignment outside the subset')
         if isinstance(s, (ast.Assign, ast.AugAssign)):
             if isinstance(s, ast.Assign):
                 if len(s.targets) != 1:
@@ -1014,6 +1107,24 @@ COLORS = Family(
         '.astype()': Prim('astype', ['fld', 'dtype'], 'fld', drop_kw={'copy'}),
     }, extra_params=EMBED, prop='C20')
 
+COLORS2 = Family(
+    'colors2', ['K', 'X', 'A', 'D'],
+    '[Add K] [Sub K] [Mul K] [Div K] [Neg K] [LT K] [DecidableLT K] [LE K] [DecidableLE K]', 'Color2Prims',
+    {
+        'np.power': Prim('pow', ['K', 'K'], 'K', elementwise=True),
+        '_convert': Prim('convert', ['fld', 'mat', 'optD'], 'fld', kw={'dtype': 2}, drop_kw={'funcname'},
+                         doc='as in the `colors` family; positions are (pixel, channel)'),
+        '.astype():fld': Prim('astype', ['fld', 'dtype'], 'fld', drop_kw={'copy'}),
+        '.astype():arr': Prim('astype3', ['arr', 'dtype'], 'arr', drop_kw={'copy'}),
+        'const:np.float32': Prim('float32', [], 'dtype'),
+        'const:np.uint8': Prim('uint8', [], 'dtype'),
+        'np.dot': Prim('dot3', ['arr', 'vec'], 'fld', doc='`np.dot(array, w)` of an (h, w, 3) array and a 3-vector: one value per pixel'),
+        'unpack:transpose201': Prim('channel', ['arr', 'nat'], 'fld', doc='`x, y, z = a.transpose((2, 0, 1))`: plane `i` of an (h, w, 3) array'),
+        'np.dstack3': Prim('dstack3', ['fld', 'fld', 'fld'], 'arr', doc='`np.dstack([a, b, c])` of three planes'),
+        'rgb2xyz': Prim('rgb2xyz', ['arr'], 'arr', doc='`rgb2xyz(rgb)` with its default dtype (None)'),
+        'xyz2lab': Prim('xyz2lab', ['arr', 'optD'], 'arr', kw={'dtype': 1}, doc='instantiated with the generated `colors_xyz2lab`'),
+    }, extra_params=EMBED, prop='C20')
+
 HISTO = Family(
     'histogram thresholds', ['H', 'G'], '', 'HistPrims',
     {
@@ -1065,8 +1176,13 @@ TARGETS = [
     # positions X = (pixel, channel): the transfer functions act on every channel value, `_convert` mixes the channels of a pixel
     Target('colors.py', 'rgb2xyz', [('rgb', 'fld'), ('dtype', 'optD')], 'fld', COLORS),
     Target('colors.py', 'xyz2rgb', [('xyz', 'fld'), ('dtype', 'optD')], 'fld', COLORS),
+    # A = an (h, w, 3) array, X -> K = one plane of it (positions are pixels); for rgb2sepia positions are (pixel, channel)
+    Target('colors.py', 'rgb2grey', [('array', 'arr'), ('dtype', 'dtype')], 'fld', COLORS2),
+    Target('colors.py', 'xyz2lab', [('xyz', 'arr'), ('dtype', 'optD')], 'arr', COLORS2, locals={'f': (['fld'], 'fld')}),
+    Target('colors.py', 'rgb2lab', [('rgb', 'arr'), ('dtype', 'optD')], 'arr', COLORS2),
+    Target('colors.py', 'rgb2sepia', [('rgb', 'fld')], 'fld', COLORS2),
 ]
-FAMILIES = [MORPH, CONV, THRESH, HISTO, LAPL, RC, SOFT, EXTREMA, STRETCH, COLORS]
+FAMILIES = [MORPH, CONV, THRESH, HISTO, LAPL, RC, SOFT, EXTREMA, STRETCH, COLORS, COLORS2]
 
 
 def _find_function(tree, name):
